@@ -137,6 +137,12 @@ func (x *Exec) Run(root *Node, mode WriterMode) ([]byte, error) {
 	return nil, fmt.Errorf("unknown writer mode %d", mode)
 }
 
+// FillMessage writes the fields of a message node into an open message writer (the caller ends it).
+func (x *Exec) FillMessage(mw spec.MessageWriter, n *Node) error { return x.fillMessage(mw, n) }
+
+// WriteField writes any node into a field writer.
+func (x *Exec) WriteField(fw spec.FieldWriter, n *Node) error { return x.writeNode(fw, n) }
+
 func unsafeString(b []byte) string {
 	if len(b) == 0 {
 		return ""
